@@ -62,6 +62,7 @@ class Check:
         self.bounded = {"evaluations": 0, "distinct_nontrivial": 0, "clauses": {}, "bound": "", "exhaustive": False}
         self.samples = []
         self.functions = {}
+        self.callee_contracts = set()
         self.notes = []
         self.trusted = set()
         self.vacuity = []
@@ -86,6 +87,13 @@ class Check:
         what = what if len(str(what)) <= 600 else str(what)[:600] + " ..."
         self.findings.append(Finding(clause, key, what, case, kind, obligation, solver, reproduced))
 
+    def absorb_meta(self, executed, contracted, used):
+        """functions executed / callee contracts applied / primitive contracts used by a worker process"""
+        for qn, (mod, line, sha) in executed.items():
+            self.functions[qn] = {"file": f"score_analysis/{mod.replace('.', '/')}.py" if mod and mod != "None" else None, "line": line, "sha256_of_ast": sha}
+        self.callee_contracts |= set(contracted)
+        self.trusted |= set(used)
+
     def function(self, ex, cls, name, mod=None):
         try:
             seg, path, line = ex.segment(cls, name, mod) if cls is None else ex.segment(cls, name)
@@ -98,8 +106,8 @@ class Check:
 
     # -------- finishing --------
     def finish(self, level_claimed="proof"):
-        from . import prims
-        self.trusted |= set(prims.USED)
+        from . import engine, prims
+        self.absorb_meta(engine.EXECUTED, engine.CONTRACTED, prims.USED)
         evdir = os.environ.get("VERIF_EVIDENCE_DIR", os.path.join(ROOT, "evidence"))
         rpdir = os.environ.get("VERIF_REPLAY_DIR", os.path.join(ROOT, "replays"))
         os.makedirs(evdir, exist_ok=True)
@@ -151,7 +159,7 @@ class Check:
             "exhaustive": bool(self.bounded.get("exhaustive")),
             "samples": self.samples[:12] or ["(no samples recorded)"],
             "explanation": self.extra.get("explanation", ""),
-            "functions_under_contract": self.functions,
+            "functions_under_contract": self.functions, "callee_contracts_assumed_at_call_sites": sorted(self.callee_contracts),
             "obligations_by_kind": by_kind, "by_backend": by_backend,
             "solver_time_s": {"total": round(stime, 3), "max": round(slow.time, 3) if slow else 0, "slowest": slow.id if slow else None},
             "undischarged": [{"id": o.id, "status": o.status, "known_finding": bool(o.meta.get("known"))} for o in self.obligs if o.status != "unsat"][:50],
